@@ -140,3 +140,15 @@ Definition der_encode_N (r s : N) : bytes := der_encode (Z.of_N r) (Z.of_N s).
 
 (* contents short enough for a 4-octet length *)
 Definition der_fits (r s : Z) : Prop := N.of_nat (length (der_body r s)) < 4294967296.
+
+(* ASN1Decode as coded: asn1.Unmarshal (a lenient parser: it tolerates
+   trailing data), then Marshal again and compare with the input.  The
+   parser is a Section variable: the strictness comes from the comparison. *)
+Section Reencode.
+  Variable unmarshal : bytes -> option (Z * Z).
+  Definition asn1_decode_impl (b : bytes) : option (Z * Z) :=
+    match unmarshal b with
+    | Some (r, s) => if beq b (der_encode r s) then Some (r, s) else None
+    | None => None
+    end.
+End Reencode.
